@@ -283,12 +283,13 @@ def _grid_jobs(tier, modes=('py',)):
 PLANS['C17'] = dict(
     engine='signature', level='exploration', jobs=lambda tier: _grid_jobs(tier, ('py', 'c')),
     exhaustive=True,
-    minimums=lambda t: {'signature_pairs': 6900, 'pairs_accepted': 1000, 'pairs_rejected': 1000, 'multi_error_cases': 250,
-                        'cases_with_2plus_errors': 50, 'special_cases': 5},
+    minimums=lambda t: {'signature_pairs': 6900, 'pairs_accepted': 1000, 'pairs_rejected': 1000, 'multi_error_cases': 800,
+                        'cases_with_2plus_errors': 150, 'special_cases': 5, 'multi_overridden_method': 50, 'multi_base_depth[3]': 30},
     rule='Complete grid of (interface method signature) x (implementation signature), each over required 0-3 x defaulted 0-2 x *args '
          'x **kwargs (48 x 48 = 2304 pairs) in three forms (plain function on the instance, bound method, verifyClass with self); '
          'the admitted call shapes of the interface signature are built explicitly and tried with inspect.signature(impl).bind; '
-         'plus random multi-error cases (missing methods/attributes incl. names from base interfaces, undeclared, tentative, '
+         'plus random multi-error cases (missing methods/attributes incl. names defined 1-3 levels up or at the top of a diamond, '
+         'inherited methods re-declared with another signature by the verified interface, undeclared, tentative, '
          'class vs object) whose reported failures must be exactly the expected ones, and non-introspectable/non-callable attributes.  '
          'exhaustive refers to the signature grid.  Every pair is non-trivial; distinct = distinct (form, interface sig, impl sig).',
     assumptions=['keyword-only and positional-only parameters are outside this property\'s quantifier (C18)',
@@ -298,9 +299,11 @@ PLANS['C18'] = dict(
     engine='signature', level='exploration', jobs=lambda tier: _grid_jobs(tier, ('py', 'c')),
     exhaustive=True,
     minimums=lambda t: {'descriptions[fromFunction]': 756, 'descriptions[abc]': 756, 'descriptions[fromMethod-bound]': 756,
-                        'descriptions[interface-body]': 756, 'shipped_abc_methods': 20},
+                        'descriptions[interface-body]': 756, 'shipped_abc_methods': 20,
+                        'grid_points_with_varied_default_values': 400},
     rule='Complete grid of generated def statements: positional-only 0-2 x required 0-2 x defaulted 0-2 x *args x keyword-only 0-2 '
-         '(every with/without-default mask) x **kw (756 functions, varied */** names) through six routes (fromFunction, interface '
+         '(every with/without-default mask) x **kw (756 functions, varied */** names, default values of several types: None, strings, '
+         'tuples, empty containers) through six routes (fromFunction, interface '
          'class body, fromMethod of a bound method and of the function, fromFunction(imlevel=1), ABCInterfaceClass) plus the methods '
          'of the shipped zope.interface.common.collections ABC interfaces; getSignatureInfo()/getSignatureString()/tagged values '
          'against inspect.signature.  Non-trivial: any of posonly/defaults/*args/kwonly/**kw present; distinct = distinct grid points.',
